@@ -31,3 +31,8 @@ package xlsx
 //@   flags readonly
 //@   ensures inrange: row >= 0 && row < len(s.Rows) && col >= 0 && col < len(s.Rows[row]) ==> !isnil(c) && c == s.Rows[row][col]
 //@   ensures outside: !(row >= 0 && row < len(s.Rows) && col >= 0 && col < len(s.Rows[row])) ==> isnil(c)
+
+// ---- C15: table-cell text cannot break a pipe table ----
+//@ func escapeMarkdown results (res)
+//@   property C15
+//@   ensures cell_safe: forall k int :: {res[k]} 0 <= k && k < len(res) ==> res[k] != 10 && (res[k] == '|' ==> k >= 1 && res[k-1] == 92)
